@@ -100,6 +100,34 @@ class Check:
             raise MachineryError(f"TLC did not finish {module}/{spec} (rc={r.rc}):\n" + r.out[-3000:])
         return r
 
+    # -- stage: machine-checked proof (TLAPS) ---------------------------------------
+    def tlaps_proof(self, module="DispatcherProof.tla", timeout=1200):
+        """Spec => []IndInv for arbitrary finite job/machine sets, lengths, durations, machine sets."""
+        import re
+        import subprocess
+        import shutil
+        out = ""
+        for attempt in (1, 2):
+            wd = common.workdir(f"tlaps-{self.pid}")
+            cmd = ["tlapm", "--cache-dir", str(wd), "--stretch", "6" if attempt == 1 else "15", "--threads", "8",
+                   "-I", "/opt/veriftools/tlapm/lib/tlaps", module]
+            t0 = time.time()
+            try:
+                p = subprocess.run(cmd, cwd=str(SPEC / "tlaps"), stdout=subprocess.PIPE, stderr=subprocess.STDOUT,
+                                   text=True, timeout=timeout)
+                out = p.stdout
+            except subprocess.TimeoutExpired:
+                out = "TIMEOUT"
+            shutil.rmtree(wd, ignore_errors=True)
+            m = re.search(r"All (\d+) obligations? proved", out)
+            if m:
+                n = int(m.group(1))
+                self.notes["tlaps_proof"] = {"module": module, "theorem": "Safety == Spec => []IndInv",
+                                             "obligations": n, "discharged": n, "wall_s": round(time.time() - t0, 1),
+                                             "backends": "SMT (Z3), Zenon, Isabelle, PTL as chosen by tlapm"}
+                return n
+        raise MachineryError("tlapm did not prove " + module + ":\n" + out[-2000:])
+
     # -- stage: inductive invariant with Apalache (thorough tier) -----------------
     def apalache_inductive(self, module="DispatcherInd.tla", cinit="ConstInit", init="Init", ind="IndInv",
                            timeout=3000):
